@@ -1,9 +1,9 @@
 use crate::{
     self as simplesl, Error,
-    instruction::{ExecResult, Instruction, InstructionWithStr, unary_operation::UnaryOperation},
+    instruction::{Instruction, InstructionWithStr},
     stdlib::operators::{FLOAT_SUM, INT_SUM, STRING_SUM},
     unary_operator::UnaryOperator,
-    variable::{ReturnType, Type, Typed, Variable},
+    variable::{ReturnType, Type, Variable},
 };
 use lazy_static::lazy_static;
 use simplesl_macros::var_type;
@@ -24,35 +24,14 @@ pub fn create(array: InstructionWithStr) -> Result<Instruction, Error> {
             given: return_type,
         });
     }
-    Ok(UnaryOperation {
-        instruction: array.instruction,
-        op,
-    }
-    .into())
-}
-
-pub fn exec(var: Variable, static_type: &Type) -> ExecResult {
-    // The iterator's own type may be narrower than the static type of the operand
-    // (`[]~` is `() -> (bool, !)` and matches every accepted type), so the reducer is
-    // chosen only among those the static type admits.
-    let return_type = var.as_type();
-    let int_iter = var_type!(() -> (bool, int));
-    let float_iter = var_type!(() -> (bool, float));
-    let string_iter = var_type!(() -> (bool, string));
-    let any_admitted = [&int_iter, &float_iter, &string_iter]
-        .iter()
-        .any(|iter_type| iter_type.matches(static_type));
-    let choose = |iter_type: &Type| {
-        return_type.matches(iter_type) && (!any_admitted || iter_type.matches(static_type))
-    };
-    let sum = if choose(&int_iter) {
-        Variable::from(INT_SUM)
-    } else if choose(&float_iter) {
-        Variable::from(FLOAT_SUM)
-    } else {
-        Variable::from(STRING_SUM)
-    };
-    Ok(sum.as_function().unwrap().exec_with_args(&[var])?)
+    Ok(super::plant(
+        array,
+        vec![
+            (var_type!(() -> (bool, int)), Variable::from(INT_SUM)),
+            (var_type!(() -> (bool, float)), Variable::from(FLOAT_SUM)),
+            (var_type!(() -> (bool, string)), Variable::from(STRING_SUM)),
+        ],
+    ))
 }
 
 #[cfg(test)]
